@@ -145,7 +145,7 @@ def structural_analysis_restore(repo):
     try:
         tree = ast.parse(open(os.path.join(repo, rel), encoding='utf-8').read())
     except (OSError, SyntaxError) as e:
-        return [{'id': 'analysis-restore', 'kind': 'frame', 'ok': None, 'label': 'cannot parse %s: %s' % (rel, e)}]
+        return [{'id': 'analysis-restore', 'definite': True, 'kind': 'frame', 'ok': None, 'label': 'cannot parse %s: %s' % (rel, e)}]
     from pyvc.verify import find_function
     fn = find_function(tree, 'Script._analysis')
     ok = None
@@ -155,7 +155,7 @@ def structural_analysis_restore(repo):
             if isinstance(n, ast.Try) and n.finalbody:
                 if 'self._inference_state.is_analysis = False' in ast.unparse(ast.Module(body=n.finalbody, type_ignores=[])):
                     ok = True
-    out.append({'id': 'analysis-restore', 'kind': 'frame', 'ok': ok,
+    out.append({'id': 'analysis-restore', 'definite': True, 'kind': 'frame', 'ok': ok,
                 'label': 'Script._analysis restores is_analysis = False in a finally clause (every exit)'})
     # infer/get_references sort through sorted_definitions; goto returns a set-derived list
     for q, needle in (('infer', 'helpers.sorted_definitions(set('), ('get_references', 'helpers.sorted_definitions(')):
@@ -187,7 +187,7 @@ def structural_reset(repo):
     for q in DIRECT_RESET:
         f = find_function(tree, 'Script.' + q)
         if f is None:
-            out.append({'id': 'reset:' + q, 'kind': 'frame', 'ok': None, 'label': 'Script.%s not found' % q})
+            out.append({'id': 'reset:' + q, 'definite': True, 'kind': 'frame', 'ok': None, 'label': 'Script.%s not found' % q})
             continue
         body = [s_ for s_ in f.body if not (isinstance(s_, ast.Expr) and isinstance(s_.value, ast.Constant)
                                             and isinstance(s_.value.value, str))]
@@ -200,7 +200,7 @@ def structural_reset(repo):
             ok = all(not any(isinstance(n, ast.Call) and 'self._inference_state' in ast.unparse(n)
                              or isinstance(n, ast.Call) and ast.unparse(n.func).startswith(('helpers.', 'self._get_module'))
                              for n in ast.walk(s_)) for s_ in before)
-        out.append({'id': 'reset:' + q, 'kind': 'frame', 'ok': ok,
+        out.append({'id': 'reset:' + q, 'definite': True, 'kind': 'frame', 'ok': ok,
                     'label': 'Script.%s resets the recursion bookkeeping itself, unconditionally and before any '
                              'inference (the counters of one query never leak into the next one)' % q})
     return out
